@@ -40,6 +40,7 @@ Facts(c) ==
     [] c = "NINF"   -> F(FALSE, FALSE, FALSE, "n", "u", "ninf", "n", "n", "n", TRUE)
     [] c = "OVERFLOW"  -> F(FALSE, FALSE, FALSE, "n", "y", "gt180", "n", "n", "n", TRUE)   \* 1e999
     [] c = "UNDERFLOW" -> F(FALSE, FALSE, FALSE, "n", "y", "in0-90", "n", "n", "n", TRUE)  \* 1e-999
+    [] c = "DIGITLIKE" -> F(FALSE, FALSE, FALSE, "n", "n", "na", "n", "n", "n", TRUE)     \* characters that look like digits to str.isdigit / isnumeric but that no number parser reads
     [] c = "TIME"     -> F(FALSE, FALSE, FALSE, "n", "n", "na", "y", "n", "n", TRUE)       \* HH:MM:SS[.f]
     [] c = "TIME_ZONED" -> F(FALSE, FALSE, FALSE, "n", "n", "na", "y", "n", "n", TRUE)     \* HH:MM:SS[.f] followed by Z or +-HH:MM (ISO 8601 zone designator)
     [] c = "BADTIME"  -> F(FALSE, FALSE, FALSE, "n", "n", "na", "n", "n", "n", TRUE)       \* 25:00:00, 12:60:00
@@ -58,7 +59,7 @@ Facts(c) ==
 IntClass(b) == F(FALSE, FALSE, FALSE, "y", "y", b, "u", "u", "n", TRUE)     \* canonical integers that are not 4-digit years
 DecClass(b) == F(FALSE, FALSE, FALSE, "n", "y", b, "u", "n", "n", TRUE)     \* canonical decimals ("12.5" is an ISO fractional hour for Python)
 PlainClasses == {"NONE", "EMPTY", "BLANK", "TEXT", "UNICODE", "SURROGATE", "INT4", "SCI", "NAN", "PINF", "NINF", "OVERFLOW",
-                 "UNDERFLOW", "TIME", "TIME_ZONED", "BADTIME", "DATE", "BADDATE", "URI", "URI_FULL", "URI_BADSCHEME", "URI_NOSCHEME", "URI_NOHOST", "URI_EXOTIC",
+                 "UNDERFLOW", "DIGITLIKE", "TIME", "TIME_ZONED", "BADTIME", "DATE", "BADDATE", "URI", "URI_FULL", "URI_BADSCHEME", "URI_NOSCHEME", "URI_NOHOST", "URI_EXOTIC",
                  "LENIENT_INT", "LENIENT_FLOAT", "LENIENT_TIME", "LENIENT_DATE"}
 (* a class is a record [cls, bucket]; bucket "" for plain classes *)
 AllClasses == {[cls |-> c, bucket |-> ""] : c \in PlainClasses}
